@@ -1,7 +1,7 @@
 (* OneShot.v — what a successful consumption of a one-time credential implies, for every store:
    which guards were passed and what happened to the stored object the credential indexed.
    Then, over all histories: a credential consumed successfully never succeeds again. *)
-From Verif Require Import Base Scope Types Prog Pop Token Authorize System Config Hoare Tactics Fresh FreshHandlers.
+From Verif Require Import Base Scope Types Prog Pop Token Authorize System Config Run Monitors Hoare Tactics Fresh FreshHandlers.
 Local Open Scope N_scope.
 
 Lemma run_seq_bind {A B} (p : prog A) (f : A -> prog B) : forall st,
@@ -78,7 +78,6 @@ Local Opaque contains_all_scopes are_scopes_allowed validate_binding validate_pk
        validate_binding_dpop validate_binding_tls set_pop_jkt set_pop_x5t hg_result
        contains_openid nav_mode render_aerr rt_contains.
 
-Definition is_tokens (o : out) : bool := match o with OTokens _ => true | _ => false end.
 
 (* ---- authorization code ---- *)
 Definition code_ok (w : world) (now : Z) (r : treq) (st st' : store) : Prop :=
@@ -161,15 +160,6 @@ Section OnceSession.
     acc (w_cfg w) o (snd (step w st n o)) = Some v -> v <> 0 ->
     exists s, In s (st_asess (s_store st)) /\ aget f s = v.
 
-  (* 0: no consumed credential was ever accepted again; k: operation k (1-based) accepted a dead one *)
-  Fixpoint once_from (cfg : config) (used : list id) (k : nat) (ops : list op) (xs : list obs) : N :=
-    match ops, xs with
-    | o :: ops', x :: xs' =>
-        if match acc cfg o x with Some v => andb (memN v used) (negb (is_nil v)) | None => false end
-        then N.of_nat (S k)
-        else once_from cfg (match cons cfg o x with Some v => v :: used | None => used end) (S k) ops' xs'
-    | _, _ => 0
-    end.
 
   Definition dead (used : list id) (n : nat) (st : state) : Prop :=
     forall v, In v used -> v <> 0 /\ aold n f v /\ forall s, In s (st_asess (s_store st)) -> aget f s <> v.
@@ -188,7 +178,7 @@ Section OnceSession.
 
   Lemma once_sound w : forall ops used st n,
     Forall wfop ops -> sfresh n st -> dead used n st ->
-    once_from (w_cfg w) used n ops (snd (run_from w st n ops)) = 0.
+    once_from cons acc (w_cfg w) used n ops (snd (run_from w st n ops)) = 0.
   Proof.
     induction ops as [|o ops IH]; intros used st n WF F D; cbn; auto.
     inversion WF as [|? ? WFo WFr]; subst.
@@ -224,7 +214,7 @@ Section OnceSession.
   Qed.
 
   Theorem once_all_histories w dyn ops :
-    Forall wfop ops -> once_from (w_cfg w) [] 0 ops (run w dyn ops) = 0.
+    Forall wfop ops -> once_from cons acc (w_cfg w) [] 0 ops (run w dyn ops) = 0.
   Proof.
     intros WF. unfold run. apply once_sound; auto.
     - apply fresh_init.
@@ -233,11 +223,6 @@ Section OnceSession.
 End OnceSession.
 
 (* ---- instance: authorization codes ---- *)
-Definition cons_code (_ : config) (o : op) (x : obs) : option id :=
-  match o, x with
-  | OpToken GAuthorizationCode r, Out (OTokens _) => Some (t_code r)
-  | _, _ => None
-  end.
 
 Lemma find_code_in c l s : find (fun s => ideq (a_code s) c) l = Some s -> In s l /\ a_code s = c.
 Proof. intros H. apply find_some in H as [H1 H2]. apply N.eqb_eq in H2. auto. Qed.
@@ -298,16 +283,6 @@ Proof.
   all: try congruence.
 Qed.
 
-Definition has_tokens_notif (ns : list notif) : bool := existsb (fun nf => negb (is_nil (nf_at nf))) ns.
-Definition cons_ciba (_ : config) (o : op) (x : obs) : option id :=
-  match o, x with
-  | OpToken GCiba r, Out (OTokens _) => Some (t_auth_req r)
-  | OpNotifyOk a _, Notified true ns => if has_tokens_notif ns then Some a else None
-  | _, _ => None
-  end.
-(* the embedder calls the Notify API with the auth_req_id of a request it was given *)
-Definition wf_op (o : op) : Prop :=
-  match o with OpNotifyOk a _ => a <> 0 | OpNotifyFail a => a <> 0 | _ => True end.
 
 Lemma notify_success_post w n now a hg st :
   has_tokens_notif (snd (snd (run_seq (notify_success w n now a hg) st))) = true ->
@@ -383,12 +358,6 @@ Proof.
   apply Hne. apply (FU s' s f); auto; congruence.
 Qed.
 
-Definition started (o : out) : bool :=
-  match o with
-  | OPage _ => true
-  | ONav _ _ nv => match n_err nv with None => true | Some _ => false end
-  | _ => false
-  end.
 
 Local Transparent notify_success ciba_grant code_grant render_aerr.
 Local Opaque make_token.
@@ -428,13 +397,6 @@ Proof.
 Qed.
 
 
-Definition cons_par (cfg : config) (o : op) (x : obs) : option id :=
-  match o, x with
-  | OpAuthorize r, Out out =>
-      if andb (cf_par_enabled cfg) (andb (negb (is_nil (p_request_uri (ar_params r)))) (started out))
-      then Some (p_request_uri (ar_params r)) else None
-  | _, _ => None
-  end.
 
 Lemma find_par_in c l s : find (fun s => ideq (a_par s) c) l = Some s -> In s l /\ a_par s = c.
 Proof. intros H. apply find_some in H as [H1 H2]. apply N.eqb_eq in H2. auto. Qed.
@@ -469,9 +431,7 @@ Proof.
 Qed.
 
 (* ---- callback ids: dead once the interaction has finished (navigated away) ---- *)
-Definition is_nav (o : out) : bool := match o with ONav _ _ _ => true | _ => false end.
 
-Definition is_page (o : out) : bool := match o with OPage _ => true | _ => false end.
 Lemma continue_auth_acc w n now r st :
   orb (is_nav (snd (run_seq (continue_auth w n now r) st))) (is_page (snd (run_seq (continue_auth w n now r) st))) = true ->
   exists s, is_nil (cb_id r) = false /\
@@ -501,11 +461,6 @@ Proof.
   all: cbn; first [apply replaced_put; reflexivity | apply replaced_del].
 Qed.
 
-Definition cons_cb (_ : config) (o : op) (x : obs) : option id :=
-  match o, x with
-  | OpCallback r, Out out => if is_nav out then Some (cb_id r) else None
-  | _, _ => None
-  end.
 Lemma find_cb_in c l s : find (fun s => ideq (a_cb s) c) l = Some s -> In s l /\ a_cb s = c.
 Proof. intros H. apply find_some in H as [H1 H2]. apply N.eqb_eq in H2. auto. Qed.
 
@@ -528,11 +483,6 @@ Proof.
 Qed.
 Local Transparent continue_auth.
 
-Definition acc_cb (_ : config) (o : op) (x : obs) : option id :=
-  match o, x with
-  | OpCallback r, Out out => if orb (is_nav out) (is_page out) then Some (cb_id r) else None
-  | _, _ => None
-  end.
 Local Opaque continue_auth.
 Lemma acc_cb_spec w st n o v : sfresh n st -> True ->
   acc_cb (w_cfg w) o (snd (step w st n o)) = Some v -> v <> 0 ->
@@ -575,15 +525,6 @@ Section OnceGrant.
     acc (w_cfg w) o (snd (step w st n o)) = Some v -> v <> 0 ->
     exists s, In s (st_gsess (s_store st)) /\ gget f s = v.
 
-  (* 0: no consumed credential was ever accepted again; k: operation k (1-based) accepted a dead one *)
-  Fixpoint gonce_from (cfg : config) (used : list id) (k : nat) (ops : list op) (xs : list obs) : N :=
-    match ops, xs with
-    | o :: ops', x :: xs' =>
-        if match acc cfg o x with Some v => andb (memN v used) (negb (is_nil v)) | None => false end
-        then N.of_nat (S k)
-        else gonce_from cfg (match cons cfg o x with Some v => v :: used | None => used end) (S k) ops' xs'
-    | _, _ => 0
-    end.
 
   Definition gdead (used : list id) (n : nat) (st : state) : Prop :=
     forall v, In v used -> v <> 0 /\ gold n f v /\ forall s, In s (st_gsess (s_store st)) -> gget f s <> v.
@@ -602,7 +543,7 @@ Section OnceGrant.
 
   Lemma gonce_sound w : forall ops used st n,
     Forall wfop ops -> sfresh n st -> gdead used n st ->
-    gonce_from (w_cfg w) used n ops (snd (run_from w st n ops)) = 0.
+    once_from cons acc (w_cfg w) used n ops (snd (run_from w st n ops)) = 0.
   Proof.
     induction ops as [|o ops IH]; intros used st n WF F D; cbn; auto.
     inversion WF as [|? ? WFo WFr]; subst.
@@ -638,7 +579,7 @@ Section OnceGrant.
   Qed.
 
   Theorem gonce_all_histories w dyn ops :
-    Forall wfop ops -> gonce_from (w_cfg w) [] 0 ops (run w dyn ops) = 0.
+    Forall wfop ops -> once_from cons acc (w_cfg w) [] 0 ops (run w dyn ops) = 0.
   Proof.
     intros WF. unfold run. apply gonce_sound; auto.
     - apply fresh_init.
@@ -681,17 +622,6 @@ Proof.
   all: try (cbn; rewrite ?ERot; reflexivity).
 Qed.
 
-Definition cons_rt (cfg : config) (o : op) (x : obs) : option id :=
-  match o, x with
-  | OpToken GRefreshToken r, Out (OTokens _) => if cf_refresh_rotation cfg then Some (t_refresh r) else None
-  | _, _ => None
-  end.
-(* accepted: any successful refresh *)
-Definition acc_rt (_ : config) (o : op) (x : obs) : option id :=
-  match o, x with
-  | OpToken GRefreshToken r, Out (OTokens _) => Some (t_refresh r)
-  | _, _ => None
-  end.
 Lemma find_rt_in c l g : find (fun g => ideq (g_refresh g) c) l = Some g -> In g l /\ g_refresh g = c.
 Proof. intros H. apply find_some in H as [H1 H2]. apply N.eqb_eq in H2. auto. Qed.
 
@@ -732,7 +662,7 @@ Qed.
 Local Transparent refresh_grant.
 
 (* with rotation, a refresh token that produced tokens is never accepted again *)
-Theorem rotation_one_shot_all w dyn ops : gonce_from cons_rt acc_rt (w_cfg w) [] 0 ops (run w dyn ops) = 0.
+Theorem rotation_one_shot_all w dyn ops : once_from cons_rt acc_rt (w_cfg w) [] 0 ops (run w dyn ops) = 0.
 Proof.
   apply (gonce_all_histories FRefresh cons_rt (fun _ => True)).
   - intros; eapply cons_rt_spec; eauto.
